@@ -1,1 +1,183 @@
+import YProofs.Props.C05
+import YProofs.Lemmas.SortLemmas
 import YModel.JW
+import Mathlib.Data.Int.Cast.Lemmas
+/-!
+Sign algebra of the Jordan–Wigner embedding.
+
+* `prodE_reorder`: in ANY ring, operators that satisfy the graded commutation rule for out-of-order pairs can be
+  brought to the canonical (stably sorted) order at the price of exactly `invSign` = `signCanonicalOrder`.
+* `KronSem`: what is used of the Kronecker product `dense : (site ↦ local factor) ↦ dense operator`:
+  multiplicativity (mixed-product property) and homogeneity in one factor for integer signs.
+* `embed_graded_commute`: the graded commutation rule for `embedAt` from parity-definiteness of the local operators.
+-/
+namespace YModel.JW
+open YModel
+
+theorem cast_sgn_mul_self {D : Type} [Ring D] (k : Int) : ((sgn k : Int) : D) * ((sgn k : Int) : D) = 1 := by
+  rw [← Int.cast_mul, sgn_mul_self, Int.cast_one]
+
+section reorder
+variable {σ : Type} {D : Type} [Ring D]
+
+/-- an embedded operator of a term: fermionic position, charge, dense operator -/
+structure EOp (σ D : Type) where
+  pos : σ
+  n : Charge
+  E : D
+
+def EOp.key (o : EOp σ D) : σ × Charge := (o.pos, o.n)
+
+/-- product in list order (application order: the last operator acts first) -/
+def prodE : List (EOp σ D) → D
+  | [] => 1
+  | o :: rest => o.E * prodE rest
+
+def leE (le : σ → σ → Bool) (a b : EOp σ D) : Bool := le a.pos b.pos
+
+/-- `Σ_{y ∈ S, ¬ x ≤ y} w x y` -/
+def crossW (w : Charge → Charge → Int) (le : σ → σ → Bool) (x : EOp σ D) (S : List (EOp σ D)) : Int :=
+  ((S.filter (fun y => !le x.pos y.pos)).map (fun y => w x.n y.n)).sum
+
+theorem insert_step (w : Charge → Charge → Int) {le : σ → σ → Bool} (hle : TotalPreorder le) (x : EOp σ D) :
+    ∀ (S : List (EOp σ D)), S.Pairwise (fun a b => le a.pos b.pos = true) →
+      (∀ y ∈ S, le x.pos y.pos = false → x.E * y.E = ((sgn (w x.n y.n) : Int) : D) * (y.E * x.E)) →
+      x.E * prodE S = ((sgn (crossW w le x S) : Int) : D) * prodE (insertBy (leE le) x S) := by
+  intro S
+  induction S with
+  | nil =>
+    intro _ _
+    simp [prodE, insertBy, crossW, sgn_zero]
+  | cons y ys ih =>
+    intro hS hgc
+    rw [List.pairwise_cons] at hS
+    obtain ⟨hy, hys⟩ := hS
+    unfold insertBy
+    by_cases hxy : le x.pos y.pos = true
+    · have hall : ∀ z ∈ y :: ys, le x.pos z.pos = true := by
+        intro z hz
+        rcases List.mem_cons.mp hz with rfl | hz
+        · exact hxy
+        · exact hle.trans _ _ _ hxy (hy z hz)
+      have hc : crossW w le x (y :: ys) = 0 := by
+        unfold crossW
+        rw [List.filter_eq_nil_iff.mpr (fun z hz => by simp [hall z hz])]
+        rfl
+      have : leE le x y = true := hxy
+      rw [if_pos this, hc, sgn_zero, Int.cast_one, one_mul]
+      rfl
+    · have hxy' : le x.pos y.pos = false := by simpa using hxy
+      have : ¬ (leE le x y = true) := hxy
+      rw [if_neg this]
+      have hc : crossW w le x (y :: ys) = w x.n y.n + crossW w le x ys := by
+        unfold crossW
+        rw [List.filter_cons]
+        simp [hxy']
+      have ih' := ih hys (fun z hz h => hgc z (List.mem_cons_of_mem _ hz) h)
+      have h1 := hgc y (List.mem_cons_self) hxy'
+      show x.E * (y.E * prodE ys) = _ * (y.E * prodE (insertBy (leE le) x ys))
+      rw [← mul_assoc, h1, mul_assoc, mul_assoc, ih', hc, sgn_add, Int.cast_mul]
+      rw [mul_assoc ((sgn (w x.n y.n) : Int) : D)]
+      congr 1
+      rw [← mul_assoc y.E, ← Int.cast_comm, mul_assoc]
+
+/-- **reordering theorem**: if every out-of-order pair obeys the graded commutation rule, the product in the user's
+order equals `invSign` (= `signCanonicalOrder`, C05) times the product in the canonical order (stable sort by
+fermionic position; operators at the same position keep their order). -/
+theorem prodE_reorder (f : Fermionic) {le : σ → σ → Bool} (hle : TotalPreorder le) :
+    ∀ (ops : List (EOp σ D)),
+      (∀ a ∈ ops, ∀ b ∈ ops, le a.pos b.pos = false → a.E * b.E = ((sgn (f.weight a.n b.n) : Int) : D) * (b.E * a.E)) →
+      prodE ops = ((invSign f le (ops.map EOp.key) : Int) : D) * prodE (isort (leE le) ops) := by
+  intro ops
+  induction ops with
+  | nil =>
+    intro _
+    simp [prodE, isort, invSign, invCount, sgn_zero]
+  | cons x xs ih =>
+    intro hgc
+    have ih' := ih (fun a ha b hb => hgc a (List.mem_cons_of_mem _ ha) b (List.mem_cons_of_mem _ hb))
+    have hsorted : (isort (leE le) xs).Pairwise (fun a b => le a.pos b.pos = true) :=
+      isort_pairwise (leE le) (fun a b c => hle.trans a.pos b.pos c.pos)
+        (fun a b => by
+          rcases hle.total a.pos b.pos with h | h
+          · simp [leE, h]
+          · simp [leE, h]) xs
+    have hstep := insert_step f.weight hle x (isort (leE le) xs) hsorted
+      (fun y hy h => hgc x List.mem_cons_self y (List.mem_cons_of_mem _ ((isort_perm _ xs).mem_iff.mp hy)) h)
+    have hcross : crossW f.weight le x (isort (leE le) xs) = crossW f.weight le x xs :=
+      perm_sum_map _ ((isort_perm _ xs).filter _)
+    have hinv : invCount f.weight le ((x :: xs).map EOp.key)
+        = crossW f.weight le x xs + invCount f.weight le (xs.map EOp.key) := by
+      simp only [List.map_cons, EOp.key, invCount]
+      congr 1
+      unfold crossW
+      rw [List.filter_map, List.map_map]
+      rfl
+    show x.E * prodE xs = _ * prodE (insertBy (leE le) x (isort (leE le) xs))
+    rw [ih', ← mul_assoc, ← Int.cast_comm, mul_assoc, hstep, hcross]
+    unfold invSign
+    rw [hinv, sgn_add, Int.cast_mul, ← mul_assoc, ← Int.cast_mul, ← Int.cast_mul, Int.mul_comm]
+
+end reorder
+
+/-! ### Kronecker semantics and graded commutation of embeddings -/
+
+/-- the properties of the Kronecker product `⨂_{l<k} a l` used by the sign algebra -/
+structure KronSem (L D : Type) [Ring L] [Ring D] (k : Nat) where
+  dense : (Nat → L) → D
+  /-- only the factors at the sites `< k` matter -/
+  dense_congr : ∀ a b : Nat → L, (∀ l, l < k → a l = b l) → dense a = dense b
+  /-- mixed-product property `(⨂ a)(⨂ b) = ⨂ (a·b)` -/
+  dense_mul : ∀ a b : Nat → L, dense (fun l => a l * b l) = dense a * dense b
+  /-- a sign on one factor is a sign on the product -/
+  dense_sign : ∀ (a : Nat → L) (m : Nat) (s : Int), m < k →
+    dense (Function.update a m ((s : L) * a m)) = (s : D) * dense a
+
+section graded
+variable {L D : Type} [Ring L] [Ring D] {k : Nat}
+
+theorem weight_comm (f : Fermionic) (a b : Charge) : f.weight a b = f.weight b a := by
+  cases f with
+  | all =>
+    simp only [Fermionic.weight, dotAll]
+    congr 1
+    induction a generalizing b with
+    | nil => cases b <;> rfl
+    | cons x xs ih =>
+      cases b with
+      | nil => rfl
+      | cons y ys => simp only [List.zipWith_cons_cons, ih ys, Int.mul_comm]
+  | none => rfl
+  | mask m => exact fdot_comm m a b
+
+/-- `A` is parity-definite of charge `nA` w.r.t. the string operators `z`: `Z^{m} A = (−1)^{⟨nA, m⟩} A Z^{m}` -/
+def Graded (w : Charge → Charge → Int) (z : Charge → L) (A : L) (nA : Charge) : Prop :=
+  ∀ m, z m * A = ((sgn (w nA m) : Int) : L) * (A * z m)
+
+/-- one-sided statement: the operator placed EARLIER in the fermionic order meets the string of the later one -/
+theorem embed_graded_commute_lt (S : KronSem L D k) (w : Charge → Charge → Int) (z : Charge → L) (fpos : Nat → Int)
+    (hzz : ∀ a b, z a * z b = z b * z a)
+    {i j : Nat} (hi : i < k) (hij : fpos i < fpos j) (hne : i ≠ j)
+    (A B : L) (nA nB : Charge) (hA : Graded w z A nA) :
+    S.dense (embedAt 1 z fpos j B nB) * S.dense (embedAt 1 z fpos i A nA)
+      = ((sgn (w nA nB) : Int) : D) * (S.dense (embedAt 1 z fpos i A nA) * S.dense (embedAt 1 z fpos j B nB)) := by
+  rw [← S.dense_mul, ← S.dense_mul]
+  rw [← S.dense_sign _ i _ hi]
+  apply S.dense_congr
+  intro l _
+  by_cases hl : l = i
+  · subst hl
+    simp only [Function.update_self, embedAt, if_true, if_neg hne, if_pos hij]
+    exact hA nB
+  · rw [Function.update_of_ne hl]
+    simp only [embedAt, if_neg hl]
+    by_cases hlj : l = j
+    · subst hlj
+      have : ¬ (fpos l < fpos i) := by omega
+      simp only [if_true, if_neg this, one_mul, mul_one]
+    · simp only [if_neg hlj]
+      by_cases h1 : fpos l < fpos i <;> by_cases h2 : fpos l < fpos j <;>
+        simp only [h1, h2, if_true, if_false, one_mul, mul_one, hzz]
+
+end graded
+end YModel.JW
